@@ -13,11 +13,16 @@ Retry  == [kind : {"retry"}, D : {0, 150, 400, 1000}, I : {50, 120, 250}, passiv
 Limit  == [kind : {"limit"}, max : {1, 2}, ups : {1, 2}, via : {"max_connections", "unhealthy_connection_count"},
            policy : {"first", "round_robin", "least_conn", "random"}]
           \cup [kind : {"limit"}, max : {1, 2}, ups : {1}, via : {"partial_dial"}, policy : {"first"}]
+          \* deadfirst: an upstream that refuses every dial is listed before the serving one; connections are retried
+          \cup [kind : {"limit"}, max : {1, 2}, ups : {1}, via : {"deadfirst"}, policy : {"first", "round_robin", "least_conn", "random"}]
 \* hport: the active checks go to a separate health port (`port`); the service port keeps accepting throughout
 \* defint: no interval configured (documented default: 30 s); only the check made when the handler starts is observed
 Active == [kind : {"active"}, interval : {60, 150}, hport : BOOLEAN, defint : {FALSE}]
           \cup [kind : {"active"}, interval : {60}, hport : {FALSE}, defint : {TRUE}]
-Grid == Window \cup Retry \cup Limit \cup Active
+\* fresh: a peer marked down by a handler that is then unloaded; the backend returns; a new handler for the same dial
+\* address (written host:port or network/host:port) starts with a clean peer
+Fresh == [kind : {"fresh"}, form : {"plain", "net"}]
+Grid == Window \cup Retry \cup Limit \cup Active \cup Fresh
 QuickGrid == { g \in Grid : (g.kind = "retry" => g.D < 1000 /\ g.I # 250) /\ (g.kind = "window" => (g.F = 300 \/ g.script = 7)) /\ (g.kind = "active" => g.interval = 60) }
 VARIABLE g
 Init == g \in (IF Tier = "quick" THEN QuickGrid ELSE Grid)
